@@ -127,7 +127,9 @@ func verifServe(req *verifReq) (resp map[string]interface{}) {
 		}
 		verifFailed = nil
 		verifReached = map[string]int{}
+		verifText = ""
 		h()
+		resp["Text"] = verifText
 		resp["Failed"] = verifFailed
 		resp["Reached"] = verifReached
 	case "prog":
